@@ -382,9 +382,80 @@ def check_lazy_eager(ctx, F):
         ctx.unresolved('R4', role3, lazy[0].defpath, 'formula shape not recognised: %s' % shapes, key=k3)
 
 
+def _is_cdf_field(t):
+    return isinstance(t, tuple) and t and t[0] == 'in' and isinstance(t[1][-1], tuple) and t[1][-1][0] == 'f' and t[1][-1][1] == 'cdf'
+
+
+def _strip_view(t):
+    while isinstance(t, tuple) and t and ((t[0] == 'proj' and t[2] == 'deref') or (t[0] == 'ref' and len(t) > 3 and t[3] == 'view')):
+        t = t[1]
+    return t
+
+
+def check_cdf_search_extent(ctx, F):
+    """Searched decoders search only the monotone part of their cdf.
+
+    The last cdf entry is the total mass 1 << PRECISION, which wraps to 0 when PRECISION equals the width of
+    Probability; the tables are therefore ordered only up to their last-but-one entry, and the encoder side, the
+    iterated symbol table and the lookup decoders never consult the last entry as a left cumulative.  A std ordered
+    search (binary_search*, partition_point) over the whole table is outside std's contract at full precision and
+    resolves quantiles of the last bin differently from the encoder.  Rule: every such search in a categorical model
+    receives `cdf[.. len(cdf) - 1]`."""
+    n = 0
+    for b in F.bodies:
+        if b.promoted is not None or '::tests::' in b.defpath or b.dk not in ('Fn', 'AssocFn'):
+            continue
+        if 'stream::model::categorical' not in b.defpath:
+            continue
+        if not any(any(k in (facts_callee(t) or '') for k in ('binary_search', 'partition_point')) for _, t in b.calls()):
+            continue
+        ev, paths = rules.evaluate(b)
+        verdict = None
+        for r in paths or []:
+            for e in r.events:
+                if e['kind'] != 'call' or not any(k in e['callee'] for k in ('binary_search', 'partition_point')):
+                    continue
+                recv = _strip_view((e.get('args_val') or e['args'])[0])
+                if _is_cdf_field(recv):
+                    verdict = ('bad', 'the whole cdf (including the final total-mass entry, which is 0 at full precision)')
+                elif recv[0] == 'call' and recv[1].endswith(('::get_unchecked', '::index', '::get')) and len(recv[2]) == 2 and _is_cdf_field(_strip_view(recv[2][0])):
+                    rng = recv[2][1]
+                    cdf = _strip_view(recv[2][0])
+                    want = sym.mk_bin('Sub', sym.mk_len(cdf), ('int', 1))
+                    if rng[0] == 'agg' and rng[1][-1] == 'RangeTo' and rng[2][0] == want:
+                        verdict = verdict or ('ok', 'cdf[..len - 1]')
+                    else:
+                        verdict = verdict if verdict and verdict[0] == 'bad' else ('unres', 'sub-slice %s' % sym.show(rng)[:80])
+                elif not sym.contains(recv, _is_cdf_field):
+                    continue
+                else:
+                    verdict = verdict if verdict and verdict[0] == 'bad' else ('unres', 'receiver %s' % sym.show(recv)[:80])
+        if verdict is None:
+            continue
+        n += 1
+        ctx.touch(b)
+        key = 'R4/cdf-search-extent/' + b.defpath
+        role = 'ordered search over a cdf excludes the wrapping total-mass entry'
+        if verdict[0] == 'ok':
+            ctx.ok('R4', role, b.defpath, 'searches ' + verdict[1], key=key)
+        elif verdict[0] == 'bad':
+            ctx.bad('R4', role, b.defpath, 'searches ' + verdict[1] + ': with PRECISION == Probability::BITS a quantile in the last bin is resolved past the end / to a different symbol than the encoder, the symbol table and the lookup decoder use', key=key, loc=rules.loc(b))
+        else:
+            ctx.unresolved('R4', role, b.defpath, 'searched slice not recognised: ' + verdict[1], key=key)
+    if n < 2:
+        ctx.unresolved('R4', 'ordered search over a cdf excludes the wrapping total-mass entry', 'stream::model::categorical', 'only %d searched decoders found (2 confirmed by reading)' % n, key='R4/cdf-search-extent/floor')
+
+
+def facts_callee(t):
+    from vlib.facts import callee
+    c = callee(t)
+    return (c.get('def') or '') if c else ''
+
+
 def run(ctx):
     F = ctx.F
     check_quantizer_boundaries(ctx, F)
+    check_cdf_search_extent(ctx, F)
     check_views(ctx, F)
     check_forwarding(ctx, F)
     check_pass_through(ctx, F)
